@@ -40,6 +40,7 @@ CHECKS = {
  "C14": ("As C08 for the SequentialConsistencyTester (no real-time filter), plus: every prefix accepted by the linearizability tester is accepted by this one, and a clone of either tester taken before an event is unchanged after the original moved on.", "5/C14", S4_NOTE, "deterministic simulation of clients/object + exhaustive definition oracle"),
  "C15": ("A bare actor system and the same system wrapped in an adapter (Choice<A,Never>, Choice<A1,A2> in L/R positions, three-level nesting, RegisterActor::Server, WORegisterActor::Server; Vec client vs a reference client) are walked in lockstep by a seeded walker over messages, timers, random choices, drops and crashes; effective steps must correspond one to one and successor states be equal modulo the wrapper constructor.", "5/C15", S2_NOTE, "deterministic simulation (seeded lockstep walks) + isomorphism oracle"),
  "C16": ("2-3 link-wrapped actors exchange uniquely numbered messages over duplicating / non-duplicating / ordered networks with loss; a seeded walker chooses deliveries, drops, reorderings and resend-timer firings, then a quiescence phase (no more faults, fair deliveries and resends) drains the links. At every state the sequence handed to each wrapped receiver must be a prefix of what was sent to it, an un-handed message must still be pending acknowledgement, and with nothing pending the sequences are equal. Hand-overs are observed at the wrapped actor's own on_msg.", "5/C16", S2_NOTE, "deterministic simulation with message-fault injection + prefix/exactly-once oracle"),
+ "C17": ("The real actor::spawn() loop runs 1-4 instrumented script actors as simulation threads on virtual UDP sockets bound to seeded IPv4 addresses, under the baton scheduler and the virtual clock, with injected datagram drop / duplication / delay and reordering / send and receive errors / junk, empty and foreign datagrams / stalls, and timer scripts with set, cancel and re-arm sequences over ranges with start == end and start < end. The merged handler log and socket-seam log must satisfy: on_start first and once; each on_msg matches injectively a datagram already delivered to that socket, with the deserialized payload and Id::from(sender address); each handler's sends appear on its socket in emission order before its next handler; timers fire only while armed and no earlier than arming + range.start; state threading; Id <-> SocketAddrV4 round trips. Safety only: that armed timers do fire and that delivered datagrams are handed over are probes.", "5/C17", S1_NOTE.replace("the graph generator and the independent reference analysis (dsim/src/s1/graph.rs)", "the virtual UDP/clock (dsim/src/sched.rs) and the log oracle (dsim/src/s3/mod.rs)"), "deterministic simulation (virtual UDP, virtual clock, fault injection) + log-matching oracle"),
  "C18": ("Spec half: operation sequences from generated histories are applied to Register / WORegister / Vec; is_valid_step is compared with invoke for the actual and a perturbed return (and the resulting object state after a valid step), is_valid_history with invoking from the initial object. Harness half: seeded walks (deliveries, drops, crashes) of systems built from RegisterActor / WORegisterActor clients with the record_invocations / record_returns hooks around servers that answer each request at most once (direct, forwarding, delaying, silent; 1-2 servers, 1-3 clients, all network kinds); per client at most one outstanding request with a fresh id, and the recorded tester must equal a shadow tester fed with exactly the client-visible sends and accepted replies.", "5/C18", S4_NOTE + " " + S2_NOTE, "deterministic simulation (seeded histories and harness walks) + shadow-history oracle"),
 }
 
